@@ -222,7 +222,11 @@ def generate(rng, tier):
     k = 1 if tier == "quick" else 10
     cases = []
     for _ in range(55 * k):
-        cases.append(gen_torch(rng, tier))
+        c = gen_torch(rng, tier)
+        # interleaving: before the explainer under test, an explainer is built on ANOTHER wrapper of the SAME torch module
+        # with the opposite channel convention (a decoy): which wrapper an explainer holds must not depend on it
+        c["decoy"] = len(c["shape"]) == 3 and rng.random() < 0.5
+        cases.append(c)
     for _ in range(15 * k):
         cases.append(gen_ctor(rng, tier))
     for _ in range(35 * k):
@@ -437,6 +441,9 @@ def run_torch(case):
             kw.update(steps=case["steps"], baseline_value=case["baseline"])
         elif m in ("SmoothGrad", "SquareGrad", "VarGrad"):
             kw.update(nb_samples=case["nb"], noise=0.0)
+        if case.get("decoy"):
+            from xplique.wrappers import TorchWrapper
+            A.Saliency(TorchWrapper(module, "cpu", is_channel_first=not first))      # constructed only, never called
         attr = np.asarray(getattr(A, m)(tw, **kw).explain(x, t))
     finally:
         tf.config.run_functions_eagerly(before)
